@@ -121,7 +121,7 @@ Upd(gg, k) ==
                          !.ansIds = IF t.res = "ok" /\ t.a.kind \in {"ready", "pay"} THEN @ \cup {<<t.a.id, t.a.kind>>} ELSE @]
         ELSE IF IsRet(t) THEN [g2 EXCEPT !.actEvents = <<>>, !.spyCalls = <<>>]
         ELSE IF t.ev = "cb:action" THEN [g2 EXCEPT !.actEvents = Append(@, t.a)]
-        ELSE IF t.ev = "spy" THEN [g2 EXCEPT !.spyCalls = Append(@, <<t.a.kind, t.res, t.a.amt>>), !.faults = @ + (IF t.res = "ok" THEN 0 ELSE 1),
+        ELSE IF t.ev = "spy" THEN [g2 EXCEPT !.spyCalls = Append(@, <<t.a.kind, t.res, t.a.amt>>), !.faults = @ + (IF t.res = "fail" THEN 1 ELSE 0),
                                              !.callQ = IF t.res = "ok" THEN (IF t.a.kind = "create" THEN <<t.a>> ELSE Append(@, t.a)) ELSE @]
         ELSE g2
       g4 == \* ---- hand life cycle seen through trustworthy snapshots
@@ -443,6 +443,9 @@ C11_timeoutAdvances(t, gg) ==
   (t.ev = "withheld" /\ Len(gg.withholdSt) = 1 /\ t.a.amt >= 17500 /\ HasHand(gg.withholdSt[1]) /\ ~gg.ext /\ gg.faults = 0) =>
     (~HasHand(t.st) \/ H(t.st).upd # H(gg.withholdSt[1]).upd)
 C11_progress(t, gg) == (HandStall(t) /\ gg.faults = 0 /\ ~gg.ext /\ HasHand(t.st) /\ AnswersRecorded(t, gg)) => FALSE
+\* a hand whose last round has closed is settled and cleared away, whatever lands meanwhile (pause, close): at rest the table never
+\* still carries a closed hand
+C11_closedHandSettles(t) == (t.ev \in {"q", "end"} /\ HasHand(t.st)) => H(t.st).ev # "GameClosed"
 C11_resultComplete(t, gg) == IsSettledSnap(t) => Len(ResultOf(t.st)) = Len(gg.handIds) /\ Len(H(t.st).p) = Len(gg.handIds)
 
 \* ---------------------------------------------------------------- hand conformance (C10 "applied once", C11 "moves on by itself")
@@ -604,6 +607,7 @@ CheckLine(k, gg) ==
      /\ Clause("C11_timeoutAdvances", C11_timeoutAdvances(t, gg), "", k)
      /\ Clause("C11_progress", C11_progress(t, gg), kfmid, k)
      /\ Clause("C11_resultComplete", C11_resultComplete(t, gg), kfmid, k)
+     /\ Clause("C11_closedHandSettles", C11_closedHandSettles(t), kfmid, k)
      /\ Clause("C13_errorReturned", C13_errorReturned(t, gg), "", k)
      /\ Clause("C13_unchanged", C13_unchanged(t, gg), "", k)
      /\ Clause("C13_retryAccepted", C13_retryAccepted(t, gg), "", k)
